@@ -92,6 +92,11 @@ def build_command(f, fobj, cfg_lenient):
         leaf.add_option(txt(o["long"]), o["short"] or None, flags, None, raw_default(o["dflt"]))
     if cfg_lenient:
         leaf.enable_lenient_args_parsing()
+        # ... and this configuration is given its own parser object (Config.set_args_parser), which then serves every parse
+        # of the command; the other one uses the default parser of the configuration
+        from clikit.args import DefaultArgsParser
+
+        leaf.set_args_parser(DefaultArgsParser())
     cmd = Command(cfgs[0])
     for c in f["cnames"][1:]:
         cmd = cmd.get_sub_command(txt(c["n"]))
@@ -223,6 +228,14 @@ _SERVER = []
 
 def pristine(f, toks, lenient, form):
     """the same request answered by harness/props/pristine.py (fresh child process, other hash seed)"""
+    return pristine_request({"f": f, "toks": list(toks), "lenient": lenient, "form": form})
+
+
+def pristine_call(module, function, *args):
+    return pristine_request({"call": [module, function], "args": list(args)})
+
+
+def pristine_request(req):
     import atexit
     import subprocess
     import sys
@@ -237,7 +250,7 @@ def pristine(f, toks, lenient, form):
         atexit.register(lambda: (p.stdin.close(), p.wait(timeout=10)))
     p = _SERVER[0]
     try:
-        p.stdin.write(json.dumps({"f": f, "toks": list(toks), "lenient": lenient, "form": form}) + "\n")
+        p.stdin.write(json.dumps(req) + "\n")
         p.stdin.flush()
         line = p.stdout.readline()
         return json.loads(line)
